@@ -50,10 +50,20 @@ type c18Cfg struct {
 	TLSCfg   bool          // Config.SSLConfig is set although Config.SSL is false: still a plain connection to 6667
 	FloodCtl bool          // flood protection on (Config.Flood false)
 	Chatter  time.Duration // > 0: a user task sends a short line every Chatter while the connection is up
+	WText    string        // wording of the welcome: "" = "Welcome nick!ident@host" | bang, at: free text with '!' resp. '@' before the mask
 	Literal  string        // "" = NewConfig | full: a Config struct literal with the whole identity given | nil-me, no-ident: a literal whose identity Client() repairs (nick __idiot__, ident goirc, name "Powered by GoIRC"); everything else in it stays
 	Late     string        // "" = everything is in the Config given to Client() | "flags" = SSL, password, negotiation and PingFreq are set through Conn.Config() after Client(), which saw the opposite values | "server" = so is the server
 	Twice    bool          // Connect() is called once more while each connection is up (it cannot succeed: nothing may be dialled or sent again)
 	Via      string        // "" = Connect() both times | "to" = ConnectTo(server) the second time | "to-pass" = ConnectTo(server, password) both times with an empty Config.Pass
+}
+
+// c18Other: the server the second connect goes to with Via "to-other": named with port 7000 if the first was named
+// without a port, without a port if the first had one.
+func c18Other(first c18Server) string {
+	if first.HasPort {
+		return "other.example"
+	}
+	return "other.example:7000"
 }
 
 func (c c18Cfg) String() string {
@@ -82,6 +92,9 @@ func (c c18Cfg) extra() string {
 	if c.Literal != "" {
 		x += " config-literal=" + c.Literal
 	}
+	if c.WText != "" {
+		x += " welcome-wording=" + c.WText
+	}
 	if c.Twice {
 		x += " connect-again-while-connected"
 	}
@@ -89,7 +102,7 @@ func (c c18Cfg) extra() string {
 }
 
 func (c c18Cfg) params() map[string]interface{} {
-	return map[string]interface{}{"given": c.Given, "pass": c.Pass, "negotiation": c.Cap, "ssl": c.SSL, "server": c.Server.Addr, "pingfreq": c.PingFreq.String(), "tracking": c.Tracking, "welcome": c.Welcome, "tlscfg": c.TLSCfg, "floodctl": c.FloodCtl, "chatter": c.Chatter.String(), "via": c.Via, "late": c.Late, "twice": c.Twice, "literal": c.Literal}
+	return map[string]interface{}{"given": c.Given, "pass": c.Pass, "negotiation": c.Cap, "ssl": c.SSL, "server": c.Server.Addr, "pingfreq": c.PingFreq.String(), "tracking": c.Tracking, "welcome": c.Welcome, "tlscfg": c.TLSCfg, "floodctl": c.FloodCtl, "chatter": c.Chatter.String(), "via": c.Via, "late": c.Late, "twice": c.Twice, "literal": c.Literal, "wtext": c.WText}
 }
 
 // client builds the client: normally Client(c.build()); with Late, Client() sees a Config with the opposite
@@ -240,6 +253,8 @@ func c18RunConfig(e *Enum, c c18Cfg) {
 			}
 			var err error
 			switch {
+			case c.Via == "to-other" && cy > 0:
+				err = cl.ConnectTo(c18Other(c.Server)) // another server: with a port if the first had none, and the other way round
 			case c.Via == "to" && cy > 0:
 				err = cl.ConnectTo(c.Server.Addr) // no password argument: the configured one stays
 			case c.Via == "to-pass":
@@ -268,7 +283,8 @@ func c18RunConfig(e *Enum, c c18Cfg) {
 			connAt[cy] = env.Now()
 			regLines[cy] = append([]string{}, vc.Lines()...)
 			if c.Welcome {
-				vc.SendLines(fmt.Sprintf(":irc.example 001 %s :Welcome %s!%s@host.example", wantNick, wantNick, wantIdent))
+				text := map[string]string{"": "Welcome", "bang": "Welcome to ExampleNet! You are", "at": "Welcome, mail admin@example.net for help,"}[c.WText]
+				vc.SendLines(fmt.Sprintf(":irc.example 001 %s :%s %s!%s@host.example", wantNick, text, wantNick, wantIdent))
 				vx.Quiesce()
 				_ = cl.Me()
 			}
@@ -310,6 +326,13 @@ func c18RunConfig(e *Enum, c c18Cfg) {
 		e.Fail(fam, "dial-count", in, fmt.Sprintf("%d connects dialled %s (Connect results: %v)", cycles, joinQ(o.DialAddrs), errs), c.params())
 	}
 	for cy, a := range o.DialAddrs {
+		wantAddr := wantAddr
+		if c.Via == "to-other" && cy > 0 {
+			wantAddr = c18Other(c.Server)
+			if c.Server.HasPort {
+				wantAddr += ":" + port // the other server was named without a port
+			}
+		}
 		if a != wantAddr {
 			id := "dial-address"
 			if c.Server.V6Lit && !c.Server.HasPort {
@@ -783,8 +806,16 @@ func c18TrafficJob() Job {
 						}
 					}
 				}
+				// other wordings of the welcome (the mask is its last word)
+				for _, wt := range []string{"bang", "at"} {
+					for _, tr := range []bool{false, true} {
+						c := c18Cfg{Server: srv, Pass: pass, Welcome: true, WText: wt, Tracking: tr, Given: true}
+						e.Case(c.String())
+						c18RunConfig(e, c)
+					}
+				}
 				// the same through ConnectTo, with and without its password argument
-				for _, via := range []string{"to", "to-pass"} {
+				for _, via := range []string{"to", "to-pass", "to-other"} {
 					for _, cp := range []bool{false, true} {
 						c := c18Cfg{Server: srv, Pass: pass, Cap: cp, Via: via}
 						e.Case(c.String())
@@ -827,7 +858,7 @@ func c18LenJob(from, to int) Job {
 func init() {
 	Register(&Prop{
 		ID:   "C18",
-		Rule: "configurations: full product of NewConfig(nick) defaults / given ident+name x password unset/set x negotiation on/off x SSL on/off x 6 server spellings (name, IPv4, bracketed IPv6; with and without port) x PingFreq {0, -1s, 3s} (thorough: also -1ns, 0.7s, 1.5s, 7s, 11s) x the settings given to Client() / SSL, password, negotiation and PingFreq written through Conn.Config() after Client() saw the opposite values / the server too x Connect() called once / once more while the connection is up, plus (job keepalive-under-traffic) flood protection on/off x a user line every 2.5 s / 1 s / never x Config.SSLConfig set with SSL off, Config struct literals (identity given in full / nil / without ident, which Client() replaces by its documented defaults), and connects through ConnectTo(server) / ConnectTo(server, password), each run as a session of two connects on one client with 10 s of virtual time after each (SSL: the server closes during the handshake, only the dial address and the failure of Connect are observed); PING answers: 14 tokens (single byte, with spaces, leading colon, empty-but-present, inner colons, 400 bytes, ...) in trailing form, with a source, in middle form and with a second parameter where legal; each alone in five surroundings, all ordered pairs in one write with chat between or after, and all variants in one session (three rounds, seven rotations, with and without the client's own keep-alive running), before and after the welcome; thorough: also every token length 1..470; one case = one configuration / one probe script, distinct = distinct configurations / scripts",
+		Rule: "configurations: full product of NewConfig(nick) defaults / given ident+name x password unset/set x negotiation on/off x SSL on/off x 6 server spellings (name, IPv4, bracketed IPv6; with and without port) x PingFreq {0, -1s, 3s} (thorough: also -1ns, 0.7s, 1.5s, 7s, 11s) x the settings given to Client() / SSL, password, negotiation and PingFreq written through Conn.Config() after Client() saw the opposite values / the server too x Connect() called once / once more while the connection is up, plus (job keepalive-under-traffic) flood protection on/off x a user line every 2.5 s / 1 s / never x Config.SSLConfig set with SSL off, Config struct literals (identity given in full / nil / without ident, which Client() replaces by its documented defaults), welcome texts with '!' or '@' before the mask, and connects through ConnectTo(server) / ConnectTo(server, password) / ConnectTo(another server, named with a port if the first had none and the other way round), each run as a session of two connects on one client with 10 s of virtual time after each (SSL: the server closes during the handshake, only the dial address and the failure of Connect are observed); PING answers: 14 tokens (single byte, with spaces, leading colon, empty-but-present, inner colons, 400 bytes, ...) in trailing form, with a source, in middle form and with a second parameter where legal; each alone in five surroundings, all ordered pairs in one write with chat between or after, and all variants in one session (three rounds, seven rotations, with and without the client's own keep-alive running), before and after the welcome; thorough: also every token length 1..470; one case = one configuration / one probe script, distinct = distinct configurations / scripts",
 		Assumptions: []string{
 			"the address is observed at the registered proxy dialler (Config.Proxy set); the direct net.Dialer path passes the same Config.Server string",
 			"for the bracketed IPv6 literal without port the port is expected to be appended to the literal as written ([::1]:6667)",
